@@ -57,6 +57,9 @@ func genVec(rt *rapid.T) Vec {
 		idx[i] = i
 	}
 	v.Order = rapid.Permutation(idx).Draw(rt, "order")
+	if rapid.Bool().Draw(rt, "turnLevelLists") {
+		v.LevelRot = rapid.IntRange(1, n).Draw(rt, "levelRot")
+	}
 	return v
 }
 
